@@ -143,7 +143,8 @@ impl Prop for C18 {
                 c.cfg.backend = if anon { Backend::Anon } else { Backend::Vec };
                 c.cfg.cap_extra = cap;
                 // keep the allocated part small: no fill-to-exhaustion and no huge requests in a 1 GiB arena
-                c.ops.retain(|o| !matches!(o, Op::Fill { .. } | Op::Reopen { .. } | Op::Truncate { .. }));
+                // ... and no operation that moves the cursor across, or zeroes, the whole arena
+                c.ops.retain(|o| !matches!(o, Op::Fill { .. } | Op::Reopen { .. } | Op::Truncate { .. } | Op::Rewind { .. } | Op::Clear));
                 c.ops.truncate(6);
                 // sizes relative to remaining() / capacity() would allocate (zero, copy, compare) a gigabyte
                 for o in c.ops.iter_mut() {
@@ -161,28 +162,61 @@ impl Prop for C18 {
             });
         // a giant case costs about half a second and a gigabyte (the constructors zero the whole arena)
         prop_oneof![
-            18000 => <C18A as Prop>::strategy(tier),
+            24000 => <C18A as Prop>::strategy(tier),
             1 => giant,
         ]
         .boxed()
     }
     fn run(case: &CaseA) -> CaseReport {
-        let mut r = <C18A as Prop>::run(case);
-        if case.cfg.cap_extra >= 1 << 30 {
-            r.classes.insert("giant-arena");
+        if case.cfg.cap_extra < 1 << 30 {
+            return <C18A as Prop>::run(case);
         }
+        // a giant case holds a gigabyte or more of resident memory: at most two of them run at any time, whatever the
+        // number of worker processes (the sandbox the checks run in may have far less memory than cores x 1 GiB)
+        let _slot = GiantSlot::acquire();
+        let mut r = <C18A as Prop>::run(case);
+        r.classes.insert("giant-arena");
         r
     }
     fn cases(tier: Tier) -> u64 {
         <C18A as Prop>::cases(tier)
     }
     fn rule() -> &'static str {
-        concat!("as below, plus one case in 18000 (about 40 per quick run) on an arena of 1 GiB or more (Vec / anonymous map) with truncate(4*capacity - k), truncate(2^32 + d) and truncate(capacity + d): for max(n, allocated()) above u32::MAX - where capacity(), a u32, cannot report the value the statement asks for - the call must fail and leave the arena exactly as it was. ", "Engine A histories on unsync::Arena with truncate(n), n around allocated()/capacity() and up to 4x capacity, on Vec/anon/file backends, incl. file arenas reopened writable or copy-on-write; oracle: capacity()==max(n, allocated), allocated/discarded/free list/bytes below allocated unchanged, live ranges intact, afterwards an allocation that fits fresh space must succeed. Non-trivial = a truncate while the free list was non-empty and detached live data existed")
+        concat!("as below, plus one case in 24000 (about 30 per quick run; at most two such cases run at a time) on an arena of 1 GiB or more (Vec / anonymous map) with truncate(4*capacity - k), truncate(2^32 + d) and truncate(capacity + d): for max(n, allocated()) above u32::MAX - where capacity(), a u32, cannot report the value the statement asks for - the call must fail and leave the arena exactly as it was. ", "Engine A histories on unsync::Arena with truncate(n), n around allocated()/capacity() and up to 4x capacity, on Vec/anon/file backends, incl. file arenas reopened writable or copy-on-write; oracle: capacity()==max(n, allocated), allocated/discarded/free list/bytes below allocated unchanged, live ranges intact, afterwards an allocation that fits fresh space must succeed. Non-trivial = a truncate while the free list was non-empty and detached live data existed")
     }
     fn assumptions() -> Vec<&'static str> {
         <C18A as Prop>::assumptions()
     }
     fn simplify(c: &CaseA) -> Vec<CaseA> {
         simplify_case_a(c)
+    }
+}
+
+/// One of two advisory file locks under the scratch directory's parent (released when dropped or when the process dies).
+struct GiantSlot(std::fs::File);
+impl GiantSlot {
+    fn acquire() -> Option<GiantSlot> {
+        use std::os::unix::io::AsRawFd;
+        let base = if std::path::Path::new("/dev/shm").is_dir() { "/dev/shm" } else { "/tmp" };
+        let open = |k: u8| std::fs::OpenOptions::new().create(true).truncate(false).write(true).open(format!("{base}/rv-giant-slot-{k}.lock")).ok();
+        let (a, b) = (open(0)?, open(1)?);
+        unsafe {
+            if libc::flock(a.as_raw_fd(), libc::LOCK_EX | libc::LOCK_NB) == 0 {
+                return Some(GiantSlot(a));
+            }
+            if libc::flock(b.as_raw_fd(), libc::LOCK_EX | libc::LOCK_NB) == 0 {
+                return Some(GiantSlot(b));
+            }
+            if libc::flock(a.as_raw_fd(), libc::LOCK_EX) == 0 {
+                return Some(GiantSlot(a));
+            }
+        }
+        None
+    }
+}
+impl Drop for GiantSlot {
+    fn drop(&mut self) {
+        use std::os::unix::io::AsRawFd;
+        unsafe { libc::flock(self.0.as_raw_fd(), libc::LOCK_UN) };
     }
 }
